@@ -69,6 +69,7 @@ pub struct Oracle {
     restarts_checked: usize,
     sig_cache: BTreeMap<(String, String, String), Option<Vec<u64>>>,
     probed: BTreeSet<Entity>,
+    liveness_checked: bool,
 }
 
 impl Oracle {
@@ -87,6 +88,7 @@ impl Oracle {
             restarts_checked: 0,
             sig_cache: BTreeMap::new(),
             probed: BTreeSet::new(),
+            liveness_checked: false,
         }
     }
 
@@ -298,6 +300,14 @@ impl Oracle {
             self.check_rows_c16(w, &open_messages, &sigs, step);
         }
 
+        // ---------------- bounded liveness after quiescence (C15-d)
+        if w.liveness_requested && !self.liveness_checked {
+            self.liveness_checked = true;
+            if self.is("C15") {
+                self.check_liveness(w, &certs, &open_messages, &signed_entities, step);
+            }
+        }
+
         // ---------------- chain verification under the client's verifier (C14-1, C15-a)
         if self.is("C14") || self.is("C15") {
             let after_restart = w.restarts_at.len() > self.restarts_checked;
@@ -308,6 +318,68 @@ impl Oracle {
             }
             self.verify_chains(w, step);
         }
+    }
+
+    /// Faults have stopped, everything was delivered, every party registered and signed, the chain
+    /// advanced two epochs: the final epoch must be certified (or legitimately lack a quorum).
+    fn check_liveness(
+        &mut self,
+        w: &World,
+        certs: &[CertificateRow],
+        open_messages: &[crate::db::OpenMessageRow],
+        signed_entities: &[crate::db::SignedEntityRow],
+        step: usize,
+    ) {
+        let e = w.epoch;
+        let mut kinds = vec!["MSD".to_string()];
+        kinds.extend(w.sc.entity_types.iter().cloned());
+        let certified: BTreeSet<&str> = certs
+            .iter()
+            .filter_map(|c| c.entity.as_ref())
+            .filter(|x| x.signing_epoch() == e)
+            .map(|x| x.kind())
+            .collect();
+        let with_artifact: BTreeSet<&str> = signed_entities.iter().filter(|s| s.entity.signing_epoch() == e).map(|s| s.entity.kind()).collect();
+        let missing: Vec<&String> = kinds.iter().filter(|k| !certified.contains(k.as_str())).collect();
+        for k in kinds.iter().filter(|k| certified.contains(k.as_str()) && !with_artifact.contains(k.as_str())) {
+            let _ = k;
+            self.probe("liveness_certificate_without_artifact_in_final_epoch");
+        }
+        if missing.is_empty() {
+            self.probe("liveness_final_epoch_fully_certified");
+            return;
+        }
+        // an open round that has its quorum delivered must have been sealed
+        let signers = Self::model_signers(w, e, step);
+        for om in open_messages.iter().filter(|o| !o.is_certified && !o.is_expired) {
+            let message = self.open_messages.get(&om.id).map(|x| x.1.clone()).unwrap_or_default();
+            let mut union: BTreeSet<u64> = BTreeSet::new();
+            for d in &w.deliveries {
+                if let MsgKind::Signature { entity, producer, .. } = &d.msg.kind
+                    && *entity == om.entity
+                    && (200..300).contains(&d.status)
+                {
+                    let pid = w.parties[*producer].party_id.clone();
+                    if let Some(ix) = self.delivered_valid_indexes(w, &signers, &pid, &d.body, &message) {
+                        union.extend(ix.into_iter().filter(|i| *i < w.sc.m));
+                    }
+                }
+            }
+            if union.len() as u64 >= w.sc.k {
+                self.report(step, "no-progress-after-faults", format!(
+                    "faults stopped two epochs ago, the accepted signatures for {} cover {} lottery indexes (k = {}), yet it is not certified after {} further ticks; state '{}', last tick error: {}",
+                    om.entity.label(), union.len(), w.sc.k, 4 * (w.sc.entity_types.len() + 3), w.last_tick.0,
+                    w.last_tick.1.as_deref().map(crate::world::first_line).unwrap_or("none".into())));
+                return;
+            }
+            // legitimately waiting for a quorum the registered stake did not reach
+            self.probe("liveness_final_epoch_lacks_quorum");
+            return;
+        }
+        self.report(step, "no-progress-after-faults", format!(
+            "faults stopped two epochs ago, all parties registered and sign, yet epoch {e} has no certificate for {} and no round is open; state '{}', last tick error: {}",
+            missing.iter().map(|s| s.as_str()).collect::<Vec<_>>().join(", "), w.last_tick.0,
+            w.last_tick.1.as_deref().map(crate::world::first_line).unwrap_or("none".into())));
     }
 
     fn verify_chains(&mut self, w: &mut World, step: usize) {
